@@ -9,6 +9,8 @@ CONSTANTS
   Spawners = FALSE
   NestedSweep = FALSE
   TeardownLoop = TRUE
+  Registers = FALSE
+  FlushRegs = TRUE
   StopOps = TRUE
 VIEW view
 ACTION_CONSTRAINT EmitEdge
